@@ -284,6 +284,8 @@ func cacheCore(w *World, r *Report, la *LockAn, full bool) {
 }
 
 func runC12(w *World, r *Report) {
+	hrRetryAfterTypeLiteral(w, r, "R6")
+	hrCfgEarlyResponseNotFedBack(w, r, "R6")
 	hrRetryAfterHelpers(w, r, "R6")
 	la := NewLockAn(w)
 	cacheCore(w, r, la, true)
